@@ -33,6 +33,8 @@ pub const CHECKS: &[(&str, RunFn, JudgeFn)] = &[
     ("C08", checks::c08::run, checks::c08::judge_strict),
     ("C09", checks::c09::run, checks::c09::judge),
     ("C10", checks::c10::run, checks::c10::judge),
+    ("C11", checks::c11::run, checks::c11::judge),
+    ("C12", checks::c12::run, checks::c12::judge),
 ];
 
 pub fn judge_for(property: &str) -> Option<JudgeFn> {
@@ -75,6 +77,15 @@ fn main() {
                 }
             };
             std::process::exit(code);
+        }
+        "worker" => {
+            // child-process mode used by cross-process comparisons
+            let seed: u64 = args.get(3).and_then(|s| s.parse().ok()).unwrap_or(0);
+            let n: usize = args.get(4).and_then(|s| s.parse().ok()).unwrap_or(0);
+            match args[2].as_str() {
+                "c12" => checks::c12::worker(seed, n),
+                _ => usage(),
+            }
         }
         "replay" => {
             let path = std::path::Path::new(&args[2]);
